@@ -23,6 +23,20 @@ def handleMSA (fs : List (List String)) : Option String :=
     some ("M " ++ rowsStr (reduceGapSites (nat! g) (splitRows a)))
   | [["iterfinal"], [s0, s1]] =>
     some (if (flt! s1) < (flt! s0) then "old" else "new")
+  | [["prog"], [g], seqs, steps] =>
+    -- steps: tokens "m,n:fa:fb" with fa, fb strings of 0/1
+    let st : List PStep := steps.map fun t =>
+      match t.splitOn ":" with
+      | [mn, fa, fb] =>
+        (match mn.splitOn "," with
+         | [m, n] => ((nat! m, nat! n), (fa.toList.map (· == '1'), fb.toList.map (· == '1')))
+         | _ => ((0, 0), ([], [])))
+      | _ => ((0, 0), ([], []))
+    some ((if progOkb (nat! g) (splitRows seqs) st then "M " else "M! ") ++ rowsStr (progressive (nat! g) (splitRows seqs) st))
+  | [["refine"], [g], msa, idxA, fa, fb] =>
+    let m := splitRows msa
+    let ok := rectb m && splitOkb (nat! g) m (idxA.map nat!) (fa.map (· == "1")) (fb.map (· == "1"))
+    some ((if ok then "M " else "M! ") ++ rowsStr (refineSplit (nat! g) m (idxA.map nat!) (fa.map (· == "1")) (fb.map (· == "1"))))
   | _ => none
 
 end Verif.Driver
